@@ -21,8 +21,27 @@ _HIST_NOTE = ("virtual clock replaces wall time; in-memory streams replace the l
               "Mailbox.FOLDER_SIZE_PACK_LIMIT lowered in some shards; the reference model is outcome-driven where RFC 3501 leaves the server a choice")
 
 
+_HIST_EXTRA = (" Random histories also contain sessions that leave (LOGOUT, connections that just end -- idling, with updates queued, or in the middle of a command), "
+               "deliveries during which the MH agent is caught half way through rewriting .mh_sequences, deliveries followed by one injected write fault (ENOSPC) on the "
+               "server's own .mh_sequences rewrite, and restarts that run the start-up scan of every recorded folder, sometimes with one failing stat (ESTALE).")
+
+EXTRA = {
+    "C08": " Every input is also handed to the parser's octet entry (parse_cmd_from_msg(bytes)) and must be read like its text; string pools contain well-formed UTF-8.",
+    "C09": " Every script ends with the scenario 'what a RENAME that failed half-way leaves behind' (own folders named like the neighbour's path, an inferior's directory gone, later RENAMEs moving the leftover link to other levels, then every use of those names).",
+    "C10": " Forced sets right after a restart (two sessions naming the same inactive mailbox beside RENAME/CREATE elsewhere); delay-injection runs in which one database round trip is slow.",
+    "C14": " In half of the scripts the mailbox changes between rounds of programs (last message expunged, arrivals under its number, flag changes, pack by the periodic check).",
+    "C15": " Stage 'sets after an EXPUNGE whose commit to the database failed once' (failpoint on Mailbox.commit_to_db called by expunge).",
+    "C16": " The equations are evaluated again after the folder changed under the messages (number reuse after expunge of the last message, pack).",
+    "C07": " The message checks run again after number reuse and after a pack.",
+    "C17": " SPECIAL-USE names are deleted (with an inferior: placeholder; as leaves: gone until the next start re-creates them) and restarts run the start-up folder scan, sometimes with one failing stat.",
+    "C18": " Attempts are also made on connections already used (another LOGIN; PASS without a new USER).",
+    "C20": " Front-end stage: POP3 client streams, cut into arbitrary segments and ending in the middle of a command, go through the real POP3Client.start() line reader and framing into the real per-user server; only complete lines are commands, messages go only after a complete QUIT.",
+    "C12": " Half of the restarts run the start-up scan of every recorded folder, sometimes with one failing stat (ESTALE) of a folder.",
+}
+
+
 def _hist(pid, technique, text):
-    CHECKS[pid] = dict(category="exploration", technique=technique, text=text + " Held means: on the histories listed in the evidence file.",
+    CHECKS[pid] = dict(category="exploration", technique=technique, text=text + _HIST_EXTRA + " Held means: on the histories listed in the evidence file.",
                        note=_HIST_NOTE, design=f"DESIGN.md section 4 {pid}")
 
 
@@ -161,7 +180,7 @@ def main():
             "evidence_file": f"/verif/evidence/{pid}.json",
             "replay_cmd_template": f"./check {pid} --replay {{path}}",
             "engine": c.get("engine", "rig+vloop"),
-            "level_claimed": {"category": c["category"], "text": c["text"], "design_ref": c["design"]},
+            "level_claimed": {"category": c["category"], "text": c["text"] + EXTRA.get(pid, ""), "design_ref": c["design"]},
             "level_note": c["note"],
             "technique": c["technique"],
         })
